@@ -22,6 +22,7 @@ pub fn scenario(tier: &str) -> (Life, Bounds) {
         tick_faults: false,
         bystander: false,
         extensions: true,
+        backlog: false,
     };
     let b = if th {
         Bounds { max_depth: 400, wall_cap_s: 1500.0, ..Default::default() }
